@@ -108,15 +108,16 @@ def main(tier):
             big = fpv32(2.0 ** 100)
             mag = [z3.fpLEQ(z3.fpAbs(a), big), z3.fpLEQ(z3.fpAbs(b), big), z3.fpLEQ(a, b)]
             ab_, c2b = bits_of(a, 'abits2'); bb_, c3b = bits_of(b, 'bbits2'); rb2, c1b = bits_of(r, 'rbits2')
-            grid = [0.25, 0.5, 0.75] if quick else [0.25, 0.5, 0.75, 1 / 3, 0.1, 0.9]
+            grid = [0.25, 0.5] if quick else [0.25, 0.5, 0.75, 1 / 3, 0.1, 0.9]
+            tog = 300 if quick else to
             for xc in grid:
                 ob(f'between-1ulp[x={xc:.4g}]', [x == fpv32(xc)] + mag + c1b + c2b + c3b, z3.Not(z3.And(z3.UGE(okey(rb2) + 1, okey(ab_)), z3.ULE(okey(rb2), okey(bb_) + 1))),
-                   f'a <= b, |a|,|b| <= 2^100, x = {xc:.4g}: lerp(a,b,x) lies in [a,b] up to one ulp')
+                   f'a <= b, |a|,|b| <= 2^100, x = {xc:.4g}: lerp(a,b,x) lies in [a,b] up to one ulp', timeout=tog)
             pts = [0.0] + sorted(grid) + [1.0]
             for xa, xb in zip(pts, pts[1:]):
                 r1 = z3.substitute(r, (x, fpv32(xa))); r2 = z3.substitute(r, (x, fpv32(xb)))
                 r1b, c5b = bits_of(r1, f'r1bits_{xa:.4g}'); r2b, c4b = bits_of(r2, f'r2bits_{xb:.4g}')
-                o = check.add(Obligation(f'C14.f32.monotone-1ulp[x={xa:.4g},{xb:.4g}]', pre + mag + c5b + c4b + [z3.Not(z3.ULE(okey(r1b), okey(r2b) + 1))], [a, b], timeout=to,
+                o = check.add(Obligation(f'C14.f32.monotone-1ulp[x={xa:.4g},{xb:.4g}]', pre + mag + c5b + c4b + [z3.Not(z3.ULE(okey(r1b), okey(r2b) + 1))], [a, b], timeout=tog,
                                          words=f'a <= b, |a|,|b| <= 2^100: lerp(a,b,{xa:.4g}) <= lerp(a,b,{xb:.4g}) up to one ulp'))
                 o.S = S; o.xpair = (xa, xb)
         elif ty == 'f64':
@@ -128,8 +129,10 @@ def main(tier):
             mx = z3.If(z3.fpGEQ(z3.fpAbs(a), z3.fpAbs(b)), z3.fpAbs(a), z3.fpAbs(b))
             tol = z3.fpMul(RNE, mx, z3.FPVal(2.0 ** -22, F64))
             small64 = z3.FPVal(2.0 ** -100, F64)
-            ob('f32-precision-on-grid', xset + [z3.fpLEQ(z3.fpAbs(a), big64), z3.fpLEQ(z3.fpAbs(b), big64), z3.Or(z3.fpIsZero(a), z3.fpGEQ(z3.fpAbs(a), small64)), z3.Or(z3.fpIsZero(b), z3.fpGEQ(z3.fpAbs(b), small64))], z3.Or(S.panic, z3.Not(z3.fpLEQ(z3.fpAbs(z3.fpSub(RNE, r, exact)), tol))),
-               f'f64, a, b zero or 2^-100 <= |.| <= 2^100 (f32-representable; no f32 underflow), {XSET}: |lerp - (a(1-x)+bx)| <= 2^-22 max(|a|,|b|)')
+            for xc in ([0.25, 0.5, 0.75] if quick else [0.25, 0.5, 0.75, 1 / 3]):
+                ob(f'f32-precision[x={xc:.4g}]', [x == fpv32(xc), z3.fpLEQ(z3.fpAbs(a), big64), z3.fpLEQ(z3.fpAbs(b), big64), z3.Or(z3.fpIsZero(a), z3.fpGEQ(z3.fpAbs(a), small64)), z3.Or(z3.fpIsZero(b), z3.fpGEQ(z3.fpAbs(b), small64))],
+                   z3.Or(S.panic, z3.Not(z3.fpLEQ(z3.fpAbs(z3.fpSub(RNE, r, exact)), tol))),
+                   f'f64, a, b zero or 2^-100 <= |.| <= 2^100 (f32-representable; no f32 underflow), x = {xc:.4g}: |lerp - (a(1-x)+bx)| <= 2^-22 max(|a|,|b|)', timeout=300 if quick else to)
             if not quick:
                 ob('finite', xin, z3.Not(fin(r)), 'f64 (f32-representable a,b), x in [0,1]: result finite')
         else:
@@ -184,11 +187,73 @@ def main(tier):
     check.assumptions += ['a, b exactly representable in f32 (the property\'s premise); x in [0,1] where stated',
                           'f32::round = roundToIntegral(RNA); num_traits from_f32 = range check MIN-1 < x < MAX+1 then truncation (models, diff-tested)']
     validate(check, prog, enums, cases)
+    glam_part(check)
     check.run()
     for ob in check.obligations:
-        if ob.result.status == 'sat':
+        if ob.result.status == 'sat' and not hasattr(ob, 'glam'):
             confirm(check, ob)
     return check.finish(rule='one obligation per (numeric type, lerp law); all a, b of the type (within the stated bound) and all f32 x')
+
+
+GLAM_ELEM = {'Vec': 'f32', 'DVec': 'f64', 'IVec': 'i32', 'I64Vec': 'i64', 'UVec': 'u32', 'U64Vec': 'u64'}
+
+
+def glam_part(check):
+    """glam vector types interpolate component-wise: the real MIR of every macro-generated impl in core/src/glam.rs (feature `glam`) is
+    executed with symbolic components; the scalar `<elem as Lerp>::lerp` calls are left uninterpreted, so the result names which
+    components were combined; glam's own constructors / Deref views are the only models"""
+    from structural import ov_lerp_uf, L_UF
+    from mirsym.parser import type_head
+    try:
+        path, key = dump_mir('mina_core', features='glam')
+    except Exception as e:
+        check.inconclusive.append(f'glam: MIR dump with --features glam failed ({e})'); return
+    prog = Program(); prog.add_text(open(path).read(), 'mina_core', [REPO])
+    enums = parse_enums([os.path.join(REPO, 'core/src')])
+    check.info.setdefault('mir_source_hash', {})['mina_core+glam'] = key
+    fns = [f for f in prog.by_last.get('lerp', []) if 'glam' in f.name and f.args]
+    class R: pass
+    seen = []
+    for f in fns:
+        T = type_head(f.args[0][1])
+        mm = re.fullmatch(r'(U64Vec|I64Vec|DVec|IVec|UVec|Vec)([234])A?', T)
+        if not mm:
+            continue            # Quat / DQuat delegate to glam's own normalising lerp: not component-wise by design (outside the claim)
+        elem, n = GLAM_ELEM[mm.group(1)], int(mm.group(2))
+        srt = F32 if elem == 'f32' else F64 if elem == 'f64' else z3.BitVecSort(INT_BITS[elem])
+        av = [z3.Const(f'ga{i}_{T}', srt) for i in range(n)]; bv = [z3.Const(f'gb{i}_{T}', srt) for i in range(n)]; t = z3.FP(f'gt_{T}', F32)
+        ov = [(re.compile(r' as Lerp>::lerp$'), ov_lerp_uf),
+              (re.compile(r'(^|::)(U64Vec|I64Vec|DVec|IVec|UVec|Vec)[234]A?::new$'), lambda m, c, a, T=T: Agg(T, list(a))),
+              (re.compile(r'<(U64Vec|I64Vec|DVec|IVec|UVec|Vec)[234]A? as Deref>::deref$'), lambda m, c, a: a[0])]
+        m = Machine(prog, enums, overrides=ov)
+        def h(m):
+            return m.call_fn(f, [m.alloc(Agg(T, [Sc(elem, x) for x in av])), m.alloc(Agg(T, [Sc(elem, x) for x in bv])), Sc('f32', t)])
+        rs = [r for r in m.explore(h) if r.outcome != 'infeasible']
+        check.note_machine(m)
+        ob = check.add(Obligation(f'C14.glam.{T}.component-wise', [], [], words=f'{T}::lerp(a, b, t) == {T}::new(' + ', '.join(f'a.{c}.lerp(&b.{c}, t)' for c in 'xyzw'[:n]) + ') for all components and t'))
+        rr = R(); rr.secs = 0.0; rr.solver = 'symbolic-execution (term identity)'; rr.detail = ''; rr.model = {}
+        ok = len(rs) == 1 and rs[0].outcome == 'ok' and isinstance(rs[0].value, Agg) and len(rs[0].value.f) == n and \
+            all(isinstance(rs[0].value.f[i], Sc) and rs[0].value.f[i].t.eq(L_UF[elem](av[i], bv[i], t)) for i in range(n))
+        if len(rs) != 1 or rs[0].outcome != 'ok':
+            check.inconclusive.append(f'glam {T}: {[(r.outcome, r.msg) for r in rs][:2]}')
+            rr.status = 'unknown'
+        else:
+            rr.status = 'unsat' if ok else 'sat'
+        ob.result = rr; ob.glam = (T, elem, n); seen.append(T)
+        if rr.status == 'sat':
+            # native: distinct components so that a mixed-up component is visible
+            case = {'kind': 'glam_lerp', 'ty': T, 'a': [str(float(3 * i + 1)) for i in range(n)], 'b': [str(float(40 * (i + 1))) for i in range(n)], 'x': '%08x' % f32bits(0.25)}
+            try:
+                nat = run_replay([case], 'dev')[0]
+                if nat.get('same') is False:
+                    check.report_violation(ob.name, None, f'{T}::lerp is not component-wise: {nat["r"]} but the components interpolate to {nat["componentwise"]} (a = {case["a"]}, b = {case["b"]}, t = 0.25); executor: {[str(x.t)[:60] for x in rs[0].value.f]}', case)
+                else:
+                    check.inconclusive.append(f'{ob.name}: structural counterexample did not reproduce natively: {nat}')
+            except Exception as e:
+                check.inconclusive.append(f'{ob.name}: glam replay unavailable ({e})')
+    check.info['glam_types'] = seen
+    if len(seen) != 19:
+        check.inconclusive.append(f'glam: expected the 19 vector impls of core/src/glam.rs, found {len(seen)}: {seen}')
 
 
 def to_native(ty, v):
@@ -254,7 +319,7 @@ def confirm(check, ob):
             import numpy as np
             lo = float(np.nextafter(np.float32(min(af, bf)), np.float32(-np.inf))); hi = float(np.nextafter(np.float32(max(af, bf)), np.float32(np.inf)))
             if not (lo <= rf <= hi): viol = f'lerp::<f32>(a={af!r}, b={bf!r}, x={x!r}) = {rf!r} lies outside [a,b] by more than one ulp'
-        elif name == 'f32-precision-on-grid':
+        elif name.startswith('f32-precision'):
             import struct as _s
             af = _s.unpack('>d', bytes.fromhex(case['a']))[0]; bf = _s.unpack('>d', bytes.fromhex(case['b']))[0]
             rf = _s.unpack('>d', _s.pack('>Q', int(r)))[0] if str(r).lstrip('-').isdigit() else float('nan')
